@@ -160,7 +160,8 @@ func c20SequentialFull(n int, maxLen int, tv [3]int, fullLen int) Scenario {
 				for k, it := range seq {
 					l.Log(c20Data(it.id), c20Owners[it.owner], tv[it.typ])
 					// an immediate Filter may lag, but must be a window of a prefix
-					got := idsOf(l.Filter(nil, 0))
+					gotRaw := l.Filter(nil, 0)
+					got := idsOf(gotRaw)
 					ok := false
 					for kk := 0; kk <= k+1; kk++ {
 						if eqInts(got, c20Match(seq, kk, n, 0, 0)) {
@@ -171,7 +172,24 @@ func c20SequentialFull(n int, maxLen int, tv [3]int, fullLen int) Scenario {
 						bad = fmt.Sprintf("after %d entries an immediate Filter(nil,0) returned %v, which is not the last %d of any prefix", k+1, got, n)
 						return
 					}
+					// what Filter returned is the caller's: scribbling over it changes nothing for the next call
+					for i := range gotRaw {
+						gotRaw[i] = &go9p.Log{Data: c20Data(9999), Owner: c20Owners[1], Type: 1}
+					}
 					vs.Idle() // logging has stopped and the queue is drained: now it must be exact
+					for rep := 0; rep < 2; rep++ {
+						r2 := l.Filter(nil, 0)
+						if want := c20Match(seq, k+1, n, 0, 0); !eqInts(idsOf(r2), want) {
+							bad = fmt.Sprintf("after %d entries (capacity %d) Filter(nil, 0), called again after the caller had overwritten and reversed the slice an earlier identical call returned, returned %v, expected %v", k+1, n, idsOf(r2), want)
+							return
+						}
+						for i, j := 0, len(r2)-1; i < j; i, j = i+1, j-1 {
+							r2[i], r2[j] = r2[j], r2[i]
+						}
+						if len(r2) > 0 {
+							r2[len(r2)-1] = &go9p.Log{Data: c20Data(8888), Owner: c20Owners[2], Type: 2}
+						}
+					}
 					for o := 0; o <= 2; o++ {
 						for t := 0; t <= 2; t++ {
 							got := idsOf(l.Filter(c20Owners[o], tv[t]))
